@@ -83,11 +83,11 @@ def plan(tier):
     nprompts = 6 if tier == "quick" else len(PROMPTS)
     hist = 6000 if tier == "quick" else 150000
     nthr = 60 if tier == "quick" else 1200
-    return {"cases": len(TABLE) * nprompts + len(extra_table()) + nthr + hist, "shards": 8 if tier == "quick" else 14,
+    return {"cases": len(TABLE) * nprompts + len(extra_table()) + len(LOGICS) * len(exception_classes()) * 6 + nthr + hist, "shards": 8 if tier == "quick" else 14,
             "min_nontrivial": 300, "timeout": 600 if tier == "quick" else 2400, "exhaustive": False,
             "require": {"table_cells": len(TABLE) * nprompts, "not_blocked_results": 100, "tokens_checked": 100,
                         "cache_hits_checked": 1000, "agent_exceptions": 100, "ttl_expiries": 50,
-                        "unknown_verdict_cells": 500, "thread_schedules": 3000, "thread_results_judged": 6000,
+                        "unknown_verdict_cells": 500, "verdicts_with_foreign_provenance": 300, "exception_sweep_cells": 500, "thread_schedules": 3000, "thread_results_judged": 6000,
                         "long_prompt_family_runs": 200}}
 
 
@@ -95,18 +95,40 @@ class Boom(Exception):
     pass
 
 
+def exception_classes():
+    import asyncio
+    import concurrent.futures
+    import socket
+    return [Boom, TimeoutError, socket.timeout, asyncio.TimeoutError, concurrent.futures.TimeoutError, RuntimeError, ValueError, KeyError,
+            LookupError, OSError, ConnectionError, ConnectionResetError, PermissionError, AssertionError, ZeroDivisionError, AttributeError,
+            TypeError, StopIteration, NotImplementedError, MemoryError, RecursionError, UnicodeDecodeError, ArithmeticError, EOFError, InterruptedError]
+
+
 class Stub:
+    """scripted agent. `verdict` = an action type, or "raise" (raises the exception class selected by `exc_index`);
+    `provenance` optionally fills ActionProtein.source_agent / metadata (a verdict relayed from somewhere else)"""
+
     def __init__(self, name):
         self.name = name
         self.verdict = "PERMIT"
         self.calls = 0
+        self.exc_index = 0
+        self.provenance = None
 
     def express(self, signal):
         from operon_ai.core.types import ActionProtein
         self.calls += 1
         if self.verdict == "raise":
-            raise Boom("agent %s crashed" % self.name)
-        return ActionProtein(self.verdict, "payload of %s" % self.name, 0.7)
+            classes = exception_classes()
+            cls = classes[self.exc_index % len(classes)]
+            if cls is UnicodeDecodeError:
+                raise UnicodeDecodeError("utf-8", b"x", 0, 1, "agent %s crashed" % self.name)
+            raise cls("agent %s crashed" % self.name) if self.exc_index % 3 else cls()
+        p = ActionProtein(self.verdict, "payload of %s" % self.name, 0.7)
+        if self.provenance is not None:
+            p.source_agent = self.provenance
+            p.metadata = {"relayed_by": self.provenance, "issuer": self.provenance}
+        return p
 
 
 def e_permits(v):
@@ -179,8 +201,15 @@ def run_case(ctx, n):
         name = "Gene_Y (Risk)" if n % 3 else "assessor-%d" % n
         loop = make_loop(logic, cache, assessor_name=name)
         loop.executor.verdict, loop.assessor.verdict = e, a
-        w = {"logic": logic, "executor": e, "assessor": a, "prompt": prompt, "cache": cache}
+        loop.executor.exc_index, loop.assessor.exc_index = n, n // 7
+        prov = [None, None, "Gene_Z (Exec)", "upstream-policy-bot", "User", ""][n % 6]
+        loop.assessor.provenance = prov
+        loop.executor.provenance = [None, "Gene_Y (Risk)", "relay"][n % 3]
+        w = {"logic": logic, "executor": e, "assessor": a, "prompt": prompt, "cache": cache, "assessor_source_agent": prov,
+             "exception_class": exception_classes()[(n if e == "raise" else n // 7) % len(exception_classes())].__name__ if "raise" in (e, a) else None}
         ctx.count("table_cells")
+        if prov:
+            ctx.count("verdicts_with_foreign_provenance")
         try:
             r = loop.run(prompt)
         except BaseException as ex:
@@ -222,6 +251,29 @@ def run_case(ctx, n):
         judge(ctx, logic, e, a, "p", r, loop.assessor.name, "fresh", w)
         return
     n3 = n2 - len(ext)
+    nexc = len(LOGICS) * len(exception_classes()) * 2 * 3
+    if n3 < nexc:
+        li, r = divmod(n3, len(exception_classes()) * 6)
+        ci, r = divmod(r, 6)
+        who, oi = divmod(r, 3)
+        other = ["EXECUTE", "PERMIT", "BLOCK"][oi]
+        logic = LOGICS[li]
+        loop = make_loop(logic, n3 % 2 == 0)
+        L = len(exception_classes())
+        loop.executor.exc_index = loop.assessor.exc_index = ci + L * (n3 % 3)    # class ci, with and without a message
+        e, a = ("raise", other) if who == 0 else (other, "raise")
+        loop.executor.verdict, loop.assessor.verdict = e, a
+        w = {"logic": logic, "executor": e, "assessor": a, "exception_class": exception_classes()[ci].__name__, "prompt": "p"}
+        ctx.count("exception_sweep_cells")
+        ctx.count("agent_exceptions")
+        try:
+            r_ = loop.run("p")
+        except BaseException as ex:
+            ctx.violation("run-raises", "run() raised %r" % (ex,), w)
+            return
+        judge(ctx, logic, e, a, "p", r_, loop.assessor.name, "fresh", w)
+        return
+    n3 -= nexc
     nthr = 60 if ctx.tier == "quick" else 1200
     if n3 < nthr:
         return thread_case(ctx, n)
